@@ -10,7 +10,8 @@ from collections import Counter
 def key(desc):
     return json.dumps(
         [desc["prefix"], sorted(desc["patterns"]), "".join(sorted(desc["alphabet"])),
-         bool(desc["just_prefix"]), sorted(map(tuple, desc["stats"]))]
+         bool(desc["just_prefix"]), sorted(map(tuple, desc["stats"])),
+         bool(desc.get("proper")) and not desc["just_prefix"]]
     )
 
 
@@ -22,18 +23,19 @@ def desc_of(comb_class):
         "alphabet": "".join(comb_class.alphabet),
         "just_prefix": bool(comb_class.just_prefix),
         "stats": [list(s) for s in comb_class.stats],
+        "proper": bool(comb_class.proper),
     }
 
 
 @functools.lru_cache(maxsize=200000)
 def _objects(k, n):
-    prefix, patterns, alphabet, just_prefix, stats = json.loads(k)
+    prefix, patterns, alphabet, just_prefix, stats, proper = json.loads(k)
     out = []
     if any(p in prefix for p in patterns):
         return ()
     if just_prefix:
         return (prefix,) if n == len(prefix) else ()
-    if n < len(prefix):
+    if n < len(prefix) or (proper and n == len(prefix)):
         return ()
     for tail in itertools.product(alphabet, repeat=n - len(prefix)):
         w = prefix + "".join(tail)
@@ -69,9 +71,9 @@ def _terms(k, n):
 
 
 def _desc_from_key(k):
-    prefix, patterns, alphabet, just_prefix, stats = json.loads(k)
+    prefix, patterns, alphabet, just_prefix, stats, proper = json.loads(k)
     return {"prefix": prefix, "patterns": patterns, "alphabet": alphabet,
-            "just_prefix": just_prefix, "stats": stats}
+            "just_prefix": just_prefix, "stats": stats, "proper": proper}
 
 
 def terms(desc, n):
@@ -87,7 +89,10 @@ def objects_by_params(desc, n):
 
 
 def is_empty(desc):
-    return any(p in desc["prefix"] for p in desc["patterns"])
+    """No object of any size.  Decided from the enumeration itself: a word class is
+    non-empty iff it has an object of size |prefix| or |prefix|+1."""
+    n = len(desc["prefix"])
+    return not objects(desc, n) and not objects(desc, n + 1)
 
 
 def norm(counter):
